@@ -69,4 +69,17 @@ def run(ctx, args):
     from c04 import sticky
     from proxyfam import report
     lf = sticky(ctx, "C15", "c15", {"VERIF_NRAND": 10 if q else 80}, "life_trace.ndjson")
+    # "the configured dialog timeout": services started from YAML (dialogTimeout key / DEFAULT_DIALOG_TIMEOUT), the effective
+    # timeout computed by TLC from the configuration as written (ConfigOps.EffTimeout), probes inside and beyond the lifetime
+    ttrace = os.path.join(ctx.scratch, "timeout_wiring_trace.ndjson")
+    rc, out = ctx.run_driver("TestVfTimeoutWiring", env={"VERIF_TRACE": ttrace}, timeout=900)
+    m = re.search(r"VF cases=(\d+) events=(\d+)", out)
+    if not m:
+        raise Infra("timeout wiring driver printed no summary:\n" + out[-2000:])
+    ctx.traces += int(m.group(1))
+    ctx.extra["timeout_wiring_cases"] = int(m.group(1))
+    tf, r = ctx.validate("Trace_Sticky", "Trace_Sticky_C15.cfg", ttrace)
+    for f in tf:
+        f["trace"] = ttrace
+    lf += tf
     report(ctx, "C15", lf, classfn=lambda f: f["what"] + "/" + f["detail"])
